@@ -93,6 +93,15 @@ def gurobi_to_z3(m):
     out = Z3Model()
     zv = out.vars
     cons = out.cons
+    # Gurobi accepts several variables with one name; the translation is keyed by name, so later homonyms are renamed in the captured model
+    seen = {}
+    for v in m.getVars():
+        k = seen.get(v.VarName, 0)
+        seen[v.VarName] = k + 1
+        if k:
+            v.VarName = f"{v.VarName}#dup{k}"
+    if any(k > 1 for k in seen.values()):
+        m.update()
     for v in m.getVars():
         n = v.VarName
         if v.VType == GRB.BINARY:
